@@ -334,10 +334,24 @@ pub fn run_query_case(c: &QCase, check_t: bool, check_r: bool) -> Outcome {
     // one `next` call with all T-checks
     macro_rules! do_next {
         () => {{
+            // requests in flight by the true clock, and the limit that applies to THIS call (a stalled
+            // lookup widens it to num_results; the mode only changes when an outcome is delivered)
+            let stalled_before = m.is_stalled();
+            let inflight_before = issued.iter().filter(|(i, t)| !outcome.contains_key(*i) && off < **t + peer_timeout).count();
             let st = m.next(base + off);
             if m.is_stalled() {
                 ever_stalled = true;
                 stats.stalled_reached = true;
+            }
+            if let QueryState::Waiting(Some(p)) = &st {
+                let limit = if stalled_before { k } else { par };
+                if inflight_before >= limit && !finished {
+                    viol!(
+                        "T2/request-handed-out-at-capacity",
+                        "next() handed out {} although {} requests were in flight (not answered, not timed out); the limit of a lookup that is {} is {}",
+                        ids::hex_id(&p.raw()), inflight_before, if stalled_before { "stalled (num_results)" } else { "iterating (parallelism)" }, limit
+                    );
+                }
             }
             match &st {
                 QueryState::Finished => {
